@@ -39,6 +39,13 @@ HAND = [
     'syntax = "proto3";\r\nmessage M {\r\n\tint32 x = 1;\r\n}\r\n',
     'syntax = "proto3";\nmessage M { int32 x = 1; }',
     '',
+    # multi-line block comments of irregular shape (interior lines at different depths, white-space-only lines
+    # shallower / deeper than the text, tabs, text on the closing line, CRLF) at declaration boundaries
+    'syntax = "proto3";\n\n/*\n    about E\n  \n    more about E\n   */\nenum E {\n  E_ZERO = 0;\n}\n',
+    'syntax = "proto3";\n\nmessage M {\n  /*\n     first paragraph\n \n     second paragraph\n  */\n  int32 x = 1;\n}\n',
+    'syntax = "proto3";\nmessage M {\n  message N {\n\t/*\n\t * a\n\t\n\t *\tb\n\t */\n    int32 x = 1; /* t\n              \n         u */\n  }\n  /* last\n\t\n in body */\n}\n/*\n\n  = eof\n*/',
+    'syntax = "proto3";\r\n/**\r\n *  doc\r\n \r\n     * deeper\r\n */\r\nmessage M {\r\n  int32 x = 1;\r\n}\r\n',
+    '/* first\n      \n   text */\nsyntax = "proto3";\nmessage M {\n  int32 x = 1;\n\n      /*\n       deep\n   \n       deep\n      */\n\n  int32 y = 2;\n}\n',
 ]
 
 
@@ -84,7 +91,8 @@ def run(ctx):
                     + glob.glob(os.path.join(REPO, "experimental/ast/printer/testdata/roundtrip/*.proto"))):
         cases.append(("corpus:" + os.path.relpath(f, REPO), open(f, "rb").read(), {}))
     plan = [("plain", ctx.budget(60, 1200)), ("plain-nocomment", ctx.budget(20, 400)), ("shuffled-plain", ctx.budget(40, 900)),
-            ("ws-adversarial", ctx.budget(80, 1800)), ("adversarial", ctx.budget(110, 3600))]
+            ("ws-adversarial", ctx.budget(80, 1800)), ("adversarial", ctx.budget(110, 3600)),
+            ("plain-blockcomments", ctx.budget(90, 2400))]
     for strat, n in plan:
         for _ in range(n):
             if strat == "ws-adversarial":
@@ -95,7 +103,12 @@ def run(ctx):
             cases.append((strat, src.encode(), {}))
     ctx.rule = ("sources: hand-picked cases, the repository's internal/testdata (compiled with its own import directory) and the "
                 "printer's format/roundtrip testdata, generated files in the strata plain / plain-nocomment / shuffled-plain "
-                "(declarations in any order), ws-adversarial (arbitrary whitespace, no comments) and adversarial (comments anywhere); "
+                "(declarations in any order), plain-blockcomments (plain layout with block comments of arbitrary shape - every "
+                "line its own indentation in spaces / tabs, empty and white-space-only lines of any width, prefix characters or "
+                "none, text on the opening / closing line, trailing white space, LF / CRLF - in every position at a declaration "
+                "boundary: first in file, own lines before a declaration at any depth, attached or detached, trailing, last in a "
+                "body, last in file; in a third of the files also after `{`, on the next declaration's line, inside a "
+                "declaration), ws-adversarial (arbitrary whitespace, no comments) and adversarial (comments anywhere); "
                 "each source x each preset (default, legacy) is one evaluation; distinct = distinct (source, preset); non-trivial = "
                 "the source parses without errors")
     ins = [dict({"s": s.hex(), "want": ["fmt", "compile"]}, **extra) for _, s, extra in cases]
@@ -137,8 +150,22 @@ def run(ctx):
                                       "differing field: %s)" % r.get("cmp_field"), rp)
             # direct oracle 2: idempotence
             if f1 != f2:
-                ctx.violation("format-not-idempotent:" + cls, "formatting the formatted output changes it",
-                              dict(rp, second=f2.decode("utf-8", "replace")[:4000]))
+                # WHAT the second pass changed (harness idemDiff, on the real lexer's tokens of both outputs).  The
+                # syntactic classes of the known findings explain a second pass that moves white space, tokens or
+                # whole comments; none of them explains a block comment whose own text (interior white space
+                # included, relative to the indentation of the line it starts on) is printed differently by the
+                # second pass while every token and every `//` comment stayed the same: that is its own key, never
+                # attributed to a class of the source.
+                idem = r.get("idem") or {}
+                key, what = "format-not-idempotent:" + cls, "formatting the formatted output changes it (%s)" % idem.get("kind")
+                extra = {}
+                if idem.get("kind") == "block-comment-text":
+                    key = "format-not-idempotent:block-comment-text-changes"
+                    what = ("the second formatting pass prints a block comment differently (same tokens, same `//` comments; "
+                            "the comment is compared relative to the indentation of the line it starts on)")
+                    extra = {"comment_after_first_pass": bytes.fromhex(idem.get("first", "")).decode("utf-8", "replace"),
+                             "comment_after_second_pass": bytes.fromhex(idem.get("second", "")).decode("utf-8", "replace")}
+                ctx.violation(key, what, dict(rp, second=f2.decode("utf-8", "replace")[:4000], second_pass_changed=idem.get("kind"), **extra))
             # correspondence: the declaration order and the token sequence of the output (only when it parses)
             if r["nerr2"] == 0 and len(src) < 8000:
                 t = fc_term(o, preset)
